@@ -375,6 +375,16 @@ def check(prop, tier, seed, replay):
         for prof, (cok, cmsg) in cargo.items():
             if not cok:
                 broken.append(("cargo-" + prof, cmsg))
+        # additional correspondence runs that belong to this property (other bin / driver)
+        also = cfg.get("also", [])
+        for sub in also:
+            if coq["ok"] or os.path.exists(os.path.join(OCAML_OUT, sub["driver"]["exe"])):
+                sok, smsg = step_driver(sub)
+                if not sok and coq["ok"]:
+                    broken.append(("driver-" + sub["bin"], smsg))
+            for prof, (cok, cmsg) in step_cargo(sub, ["dev"]).items():
+                if not cok:
+                    broken.append(("cargo-%s-%s" % (sub["bin"], prof), cmsg))
 
     have_driver = os.path.exists(os.path.join(OCAML_OUT, cfg["driver"]["exe"]))
     have_bin = all(cargo[p][0] for p in profiles)
@@ -396,6 +406,20 @@ def check(prop, tier, seed, replay):
                 broken.append(("correspondence-" + prof, "%d of %d cases differ, first: %s" % (
                     rep["mismatch_count"], rep["evaluations"], json.dumps(rep["mismatches"][0])[:600])))
                 mismatches += [m["request"] for m in rep["mismatches"]]
+
+    for sub in cfg.get("also", []):
+        if os.path.exists(harness_exe(sub, "dev")) and os.path.exists(os.path.join(OCAML_OUT, sub["driver"]["exe"])):
+            rep, err = run_harness(sub, "dev", "corr", tier, seed, os.path.join(ROOT, "corpus"),
+                                   timeout=sub.get("corr_timeout", 3000 if tier == "thorough" else 900))
+            key = "also-" + sub["bin"]
+            if rep is None:
+                broken.append(("harness-" + key, err))
+                continue
+            reports[key] = rep
+            if rep["mismatch_count"] > 0:
+                broken.append(("correspondence-" + key, "%d of %d cases differ, first: %s" % (
+                    rep["mismatch_count"], rep["evaluations"], json.dumps(rep["mismatches"][0])[:600])))
+                also_broken = True
 
     # known findings
     known_lines = []
@@ -444,6 +468,14 @@ def check(prop, tier, seed, replay):
                     failing = (prof, search_rep["failures"][0])
                     break
             os.unlink(mm_file)
+            if not failing:
+                for sub in cfg.get("also", []):
+                    if os.path.exists(harness_exe(sub, "dev")):
+                        srep, err = run_harness(sub, "dev", "search", tier, seed, None, timeout=1500)
+                        if srep and srep["failures"]:
+                            search_rep = srep
+                            failing = ("dev", srep["failures"][0])
+                            break
         body = {"property": prop, "seed": seed, "tier": tier,
                 "broken": [{"kind": k, "detail": d[:3000]} for k, d in broken]}
         if failing:
